@@ -29,7 +29,7 @@ class C04(F.PropCheck):
     OUT = {0: 'WIFISTART', 1: 'CONNECT', 2: 'DISCONNECT', 3: 'FRESH', 4: 'WIRE', 5: 'JUNK', 6: 'RESTART', 7: 'STATE', 8: 'FUEL', 9: 'RX', 10: 'DISCD', 11: 'SRVRX'}
     quick_cases = 2000; thorough_cases = 50000
     trusted_extra = ['C04 driver harness/drv/c04.c + harness/wrap/c04_wifi_wrap.c: model of the SDK TCP client around the server connection '
-                     '(connect_cb only for a pending espconn_connect, disconnect_cb only for a live/closing connection, data only on a live one; '
+                     '(connect_cb only for a pending espconn_connect, disconnect_cb only for a live/closing connection, data on a live one and -- a segment in flight at a device-initiated close -- on a closing one, followed at once by the disconnect callback; '
                      'espconn_sent answers the scripted "live" result on a live connection and the CFG "dead" result otherwise); '
                      'wifi_station_connect() sets the station status to CONNECTING until a WIFI event',
                      'gen/grp_c04.py: call-site list and guard classification by patterns over gcc -E output (lexical domination by '
@@ -248,6 +248,7 @@ class C04(F.PropCheck):
             elif k < 0.80:
                 emit([('RECV', [], reg_result(rng.choice(self.REFUSALS), 0, 1))]); tags.add('sess:refused')
                 emit([('ADV', [rng.choice([1000, 4000, 5000, 6000, 100000])], b'')])
+                if rng.random() < 0.3: tags.add('inflight-after-stop'); evs.append(('RECV', [], rng.choice([reg_result(3, 10, 7), chstate_req(9)])))
             elif k < 0.90:
                 tags.add('sess:silent')
                 for _ in range(rng.randrange(1, 8)): emit([('LOCAL', [rng.randrange(0, 9), 0, 1], b''), self.adv(rng)])
@@ -256,6 +257,16 @@ class C04(F.PropCheck):
                 for _ in range(rng.randrange(1, 8)): emit(self.noise(rng, tags))
             # how the session ends
             k = rng.random()
+            if rng.random() < 0.12:
+                # device-initiated close (activity-timeout reconnect after T+10 s of silence, or the stop 5 ms after a refusal) and a segment
+                # that was already in flight: delivered while the connection is closing, then the close completes (RX + DISCD).  The bytes
+                # must not survive into the next connection (a whole register result / request would be parsed there)
+                tags.add('end:local-close-inflight')
+                emit([('ADV', [rng.choice([5000000, 6000000, 7000000])], b'')] * rng.choice([4, 5, 7, 13]))
+                stale = rng.choice([reg_result(3, 10, 7), reg_result(3, 10, 7), chstate_req(9), ping_result(5), sat_result(20, 6), reg_result(3, 10, 7)[:11]])
+                evs.append(('RECV', [], stale))
+                if rng.random() < 0.3: emit([('DISCCB', [], b'')])
+                continue
             if k < 0.35: emit([('DISCCB', [], b'')]); emit([('ADV', [rng.choice([1900000, 2000000, 2100000, 2500000])], b'')]); tags.add('end:disccb')
             elif k < 0.50:
                 tags.add('end:stall'); emit([('SENTMODE', [rng.choice([-5, -7])], b'')])
